@@ -114,6 +114,8 @@ def main():
                 if dest_dir is None:
                     rel = os.path.relpath(dp, demo)
                     dest_dir = rel if rel != "." else (os.path.dirname(files[0]) if files else ".")
+                if not os.path.isdir(os.path.join(wt, dest_dir)) and os.path.isdir(os.path.join(wt, dest_dir.replace("_", "/"))):
+                    dest_dir = dest_dir.replace("_", "/")  # demo/kv_memory/... stands for kv/memory/...
                 d = os.path.join(wt, dest_dir)
                 os.makedirs(d, exist_ok=True)
                 shutil.copy(srcf, os.path.join(d, fn))
